@@ -15,10 +15,35 @@ GEO = 'glm/detail/func_geometric.inl'
 rcontracts = []
 fcontracts = []
 
-# Measured on this machine with VERIF_JOBS=6 (z3 4.x QF_NRA / sympy).  Contracts listed here are claimed only in the thorough tier.
-THOROUGH = {'glm_dot_bits_v3_f32', 'glm_dot_bits_v4_f32', 'glm_dot_bits_v3_f64', 'glm_dot_bits_v4_f64'}
+# Measured on this machine with VERIF_JOBS=8, load ~20 (z3 5.1 QF_NRA; CBMC 6.11 cadical/minisat race).  > ~25 s: claimed only in the thorough tier.
+THOROUGH = set()
+for _t in ('f32', 'f64'):
+    THOROUGH |= {'glm_dot_bits_v3_' + _t, 'glm_dot_bits_v4_' + _t, 'glm_triangleNormal_' + _t, 'glm_angle_v4_' + _t, 'glm_orthonormalize_vec_' + _t,
+                 'glm_orientedAngle3_' + _t, 'glm_orientedAngle3_sign_' + _t, 'glm_closestPointOnLine_inside_orth_3_' + _t, 'glm_refract_unit_v3_' + _t}
+THOROUGH |= {'glm_dot_bits_v2_f32', 'glm_dot_bits_v2_f64', 'glm_refract_tir_v3_f64', 'glm_refract_tir_v4_f64', 'glm_refract_bits_v2_f64',
+             'glm_refract_bits_v3_f64', 'glm_refract_bits_v4_f64', 'glm_faceforward_bits_v4_f64'}
 # Contracts the portfolio could not decide (UNKNOWN / timeout): not claimed, listed in P.not_covered with the reason.
 LEFT_OUT = {}
+for _t in ('f32', 'f64'):
+    LEFT_OUT['glm_refract_unit_v4_' + _t] = ('|refract(I,N,eta)| == 1 for unit I, N in 4 dimensions: z3 default + nlsat unknown at timeout=300 '
+                                            '(it follows on paper from the discharged clauses snell_sines and snell_tangential_part_scaled_by_eta of glm_refract_snell_v4)')
+    LEFT_OUT['glm_orthonormalize_mat_' + _t] = ('orthonormalize(mat3): columns orthonormal / Gram-Schmidt spans / orientation: z3 unknown at timeout=120 (~480 s per run), '
+                                               'including the generated obligations that the second and third normalisation do not divide by zero when det != 0; '
+                                               'the Groebner fallback does not apply (inequality hypotheses)')
+    LEFT_OUT['glm_orientedAngle3_sin2_' + _t] = ('orientedAngle(x,y,ref): sin(result)^2 == |cross(x,y)|^2: z3 unknown at timeout=300 '
+                                                '(cos(result) == dot, result == +-acos(..) with the sign rule, and sin(result)*dot(ref,cross) >= 0 are discharged)')
+    LEFT_OUT['glm_dot_bits_v%d_f64' % (3 if _t == 'f32' else 4)] = (
+        'bit-exact evaluation order of dot(dvec3/dvec4): the SAT race needs > 800 s (two copies of the double adders); the float instantiations '
+        'glm_dot_bits_v3_f32 / v4_f32 are discharged in the thorough tier, dvec2 too')
+LEFT_OUT['glm_closestPointOnLine_inside_orth_3_f64'] = (
+    'closestPointOnLine(dvec3), projection strictly inside: (point - result) orthogonal to the segment: z3 unknown at timeout=600 for the double '
+    'instantiation only (the float one is discharged in 26 s; the clause follows on paper from the discharged result == a + t (b - a))')
+for _t in ('f32', 'f64'):
+    for _L in (2, 3):
+        LEFT_OUT['glm_closestPointOnLine_inside_min_%d_%s' % (_L, _t)] = (
+            'closestPointOnLine, projection strictly inside: "no point of the segment is closer" (and its Pythagoras certificate): z3 unknown at '
+            'timeout=300; discharged instead: the result is the foot of the perpendicular (residual orthogonal to the segment, result == a + t (b - a)); '
+            'minimality IS discharged for the two clamped cases t <= 0 and t >= 1')
 
 
 def R(fn, real, **kw):
@@ -152,7 +177,7 @@ for tag in ('f32', 'f64'):
         R(alias('glm_refract_' + sfx, 'glm_refract_snell_' + sfx), 'glm::refract(vec%d)  Snell\'s law  compute_refract  %s' % (L, GEO), requires=UNITR,
           ensures=[('snell_sines', 'eta * eta * (1 - %s * %s) == 1 - dot(%s, out) * dot(%s, out)' % (D, D, B, B)),
                    ('snell_tangential_part_scaled_by_eta', 'And(eqv(vsub(out, vscale(%s, dot(%s, out))), vscale(vsub(%s, vscale(%s, %s)), eta)))' % (B, B, A, B, D)),
-                   ('transmitted_side', 'dot(%s, out) <= 0' % B)])
+                   ('transmitted_side', 'dot(%s, out) <= 0' % B)], timeout=300)
         R(alias('glm_refract_' + sfx, 'glm_refract_unit_' + sfx), 'glm::refract(vec%d)  unit result  compute_refract  %s' % (L, GEO), requires=UNITR,
           ensures=[('unit_length', 'norm2(out) == 1')], timeout=300)
         # gtx/norm: length2, distance2
@@ -226,7 +251,7 @@ for tag in ('f32', 'f64'):
     R('glm_orthonormalize_vec_' + tag, 'glm::orthonormalize(vec3 x, vec3 y)  glm/gtx/orthonormalize.inl',
       requires=[('y_unit', 'norm2(%s) == 1' % B), ('x_not_parallel_to_y', 'norm2(cross(%s, %s)) != 0' % (A, B))],
       ensures=[('unit_length', 'norm2(out) == 1'), ('orthogonal_to_y', 'dot(out, %s) == 0' % B),
-               ('in_span_of_x_and_y', 'det([out, %s, %s]) == 0' % (A, B)), ('keeps_side_of_x', 'dot(out, %s) > 0' % A)])
+               ('in_span_of_x_and_y', 'det([out, %s, %s]) == 0' % (A, B)), ('keeps_side_of_x', 'dot(out, %s) > 0' % A)], timeout=300)
     m = mat_ins(3, 3, tag, 'm')
     M = 'mat([%s], 3, 3)' % ', '.join(names(m))
     d.shim('glm_orthonormalize_mat_' + tag, 'void', m, 'auto r = glm::orthonormalize(%s); %s' % (mat_make(3, 3, tag, 'm'), mat_store(3, 3, 'r')), outs=[(T, 'out', 9)])
@@ -245,9 +270,12 @@ for tag in ('f32', 'f64'):
           ('lemma_lagrange_identity', 'norm2(cross(%s, %s)) == norm2(%s) * norm2(%s) - dot(%s, %s) * dot(%s, %s)' % (A, B, A, B, A, B, A, B))]
     R('glm_orientedAngle3_' + tag, 'glm::orientedAngle(vec3, vec3, ref)  glm/gtx/vector_angle.inl', requires=UN + PAR,
       ensures=[('cos_of_result_is_dot', 'cos(RESULT) == dot(%s, %s)' % (A, B)),
-               ('sin_squared_is_norm2_of_cross', 'sin(RESULT) * sin(RESULT) == norm2(cross(%s, %s))' % (A, B)),
-               ('sign_follows_reference_axis', 'sin(RESULT) * dot(%s, cross(%s, %s)) >= 0' % (C, A, B)),
-               ('magnitude_is_unsigned_angle', 'Or(RESULT == %s, RESULT == -%s)' % (ANG, ANG))])
+               ('magnitude_is_unsigned_angle', 'Or(RESULT == %s, RESULT == -%s)' % (ANG, ANG)),
+               ('negative_iff_reference_axis_opposes_cross', 'RESULT == If(dot(%s, cross(%s, %s)) < 0, -%s, %s)' % (C, A, B, ANG, ANG))])
+    R(alias('glm_orientedAngle3_' + tag, 'glm_orientedAngle3_sign_' + tag), 'glm::orientedAngle(vec3, vec3, ref)  sign of the sine  glm/gtx/vector_angle.inl', requires=UN + PAR,
+      ensures=[('sign_follows_reference_axis', 'sin(RESULT) * dot(%s, cross(%s, %s)) >= 0' % (C, A, B))], timeout=300)
+    R(alias('glm_orientedAngle3_' + tag, 'glm_orientedAngle3_sin2_' + tag), 'glm::orientedAngle(vec3, vec3, ref)  sine  glm/gtx/vector_angle.inl', requires=UN + PAR,
+      ensures=[('sin_squared_is_norm2_of_cross', 'sin(RESULT) * sin(RESULT) == norm2(cross(%s, %s))' % (A, B))], timeout=300)
     # gtx/normal triangleNormal
     NRM = 'cross(vsub(%s, %s), vsub(%s, %s))' % (B, A, C, A)
     d.shim('glm_triangleNormal_' + tag, 'void', a + b + c, 'auto r = glm::triangleNormal(%s, %s, %s); %s' % (mka, mkb, mkc, vec_store(3, 'r')), outs=vo)
@@ -274,10 +302,15 @@ for tag in ('f32', 'f64'):
                    ('clamps_to_a_when_t_le_0', 'Implies(%s <= 0, And(eqv(out, %s)))' % (PD, S0)),
                    ('clamps_to_b_when_t_ge_1', 'Implies(%s >= %s, And(eqv(out, %s)))' % (PD, DD, S1))], timeout=300)
         CLOSER = ('no_point_of_the_segment_is_closer', 'Implies(And(fresh("s") >= 0, fresh("s") <= 1), norm2(vsub(%s, out)) <= norm2(vsub(%s, vadd(%s, vscale(%s, fresh("s"))))))' % (Pp, Pp, S0, DIR))
-        R(alias(base, base.replace('Line', 'Line_inside_')), real + '  (0 < t < 1)',
-          requires=ND + [('projection_strictly_inside', 'And(%s > 0, %s < %s)' % (PD, PD, DD))],
-          ensures=[('residual_orthogonal_to_segment', 'dot(vsub(%s, out), %s) == 0' % (Pp, DIR)),
-                   ('is_a_plus_t_times_direction', 'And(eqv(vscale(out, %s), vadd(vscale(%s, %s), vscale(%s, %s))))' % (DD, S0, DD, DIR, PD)), CLOSER], timeout=300)
+        INS = ND + [('projection_strictly_inside', 'And(%s > 0, %s < %s)' % (PD, PD, DD))]
+        R(alias(base, base.replace('Line', 'Line_inside_')), real + '  (0 < t < 1)', requires=INS,
+          ensures=[('is_a_plus_t_times_direction', 'And(eqv(vscale(out, %s), vadd(vscale(%s, %s), vscale(%s, %s))))' % (DD, S0, DD, DIR, PD))], timeout=300)
+        R(alias(base, base.replace('Line', 'Line_inside_orth_')), real + '  (0 < t < 1)', requires=INS,
+          ensures=[('residual_orthogonal_to_segment', 'dot(vsub(%s, out), %s) == 0' % (Pp, DIR))], timeout=600)
+        # Pythagoras: |p - (a + s d)|^2 - |p - out|^2 = (s - t)^2 |d|^2 for every real s (multiplied by |d|^2 > 0): out is the unique minimiser
+        R(alias(base, base.replace('Line', 'Line_inside_min_')), real + '  (0 < t < 1) minimality', requires=INS,
+          ensures=[('distance_excess_is_a_square', '(norm2(vsub(%s, vadd(%s, vscale(%s, fresh("s"))))) - norm2(vsub(%s, out))) * %s == (fresh("s") * %s - %s) * (fresh("s") * %s - %s)' % (
+              Pp, S0, DIR, Pp, DD, DD, PD, DD, PD)), CLOSER], timeout=300)
         R(alias(base, base.replace('Line', 'Line_before_')), real + '  (t <= 0)', requires=ND + [('projection_before_a', '%s <= 0' % PD)], ensures=[CLOSER], timeout=300)
         R(alias(base, base.replace('Line', 'Line_after_')), real + '  (t >= 1)', requires=ND + [('projection_after_b', '%s >= %s' % (PD, DD))], ensures=[CLOSER], timeout=300)
     # ------------------------------------------------------------------ vec2-only
@@ -399,10 +432,13 @@ for fn, real, kw in fcontracts:
 
 P.level_text = ('over the reals (machine arithmetic treated as mathematical): the real-valued function computed by the code clang '
                 'extracts from /repo satisfies the Euclidean identities of the property statement for all real inputs in the stated '
-                'domain; plus bit-exact CBMC contracts (all float/double bit patterns) for the branch selection of faceforward and '
-                'the exact zero vector of refract on total internal reflection')
-P.level_note = ('trusted: clang-14 lowering, tools/ll2smt.py symbolic execution, z3 nlsat / sympy Groebner, rspec.py (dot, cross, Leibniz det), '
-                'the ground axioms of sqrt / sin / cos / acos; for kind F: ll2c (T-checked), CBMC float model incl. its sqrt model. '
+                'domain; plus bit-exact CBMC contracts (all float/double bit patterns) for the branch selection of faceforward, the '
+                'exact +0 vector of refract whenever the float k is negative, and the evaluation order of dot')
+P.level_note = ('trusted: clang-14 lowering, tools/ll2smt.py symbolic execution, z3 nlsat (no obligation of this property needed the sympy fallback), '
+                'rspec.py (dot, cross, Leibniz det), the ground axioms of sqrt / sin / cos / acos; for kind F: ll2c (T-checked), CBMC float model; in the '
+                '*_bits_* refract/dot contracts float products and sqrt are abstracted, in code and clause alike, by (commutative) uninterpreted '
+                'functions: a proof holds for every interpretation, hence for IEEE; in the faceforward/refract F contracts the branch condition is '
+                'GLM\'s own dot stored by the same shim (merged by clang with the inlined one) whose value is pinned by glm_dot_bits_*. '
                 'R obligations are blind to rounding, overflow/underflow of squared norms, NaN/Inf and cancellation in cross')
 P.technique = ('contracts over the reals on mechanically extracted LLVM IR: symbolic execution + z3 QF_NRA / sympy Groebner, '
                'CBMC contracts for bit-exact branch facts')
@@ -410,14 +446,20 @@ P.design_ref = 'DESIGN.md sections 5 and 6 C12'
 P.assumptions = ['machine arithmetic treated as mathematical (IEEE float/double identified with the reals)',
                  'cos(-t) == cos(t) and sin(-t) == -sin(t) at t = acos(clamp(dot(x,y),-1,1)) (orientedAngle: parity of cos and sin)',
                  'angle / orientedAngle: arguments are unit vectors (documented: "Parameters need to be normalized")',
+                 'lemma used as a requires of angle(vecL): Cauchy-Schwarz dot(x,y)^2 <= |x|^2 |y|^2 (valid for all reals; itself discharged as '
+                 'obligation glm_dot_vL.cauchy_schwarz)',
+                 'lemma used as a requires of orientedAngle(vec3): Lagrange identity |x cross y|^2 == |x|^2 |y|^2 - dot(x,y)^2 (valid for all reals; itself '
+                 'discharged as obligation glm_cross.lemma_lagrange_identity_of_the_textbook_cross)',
                  'orthonormalize(x, y): y is a unit vector and x is not parallel to y (the unit-length requirement is NOT documented by GLM; '
                  'for non-unit y the result is not orthogonal to y, see proposed/C12_report.md)',
-                 'normalize / proj / perp / triangleNormal / closestPointOnLine / orthonormalize(mat3): non-degenerate arguments (v != 0, Normal != 0, '
-                 'non-collinear triangle, a != b, det != 0)']
+                 'refract Snell clauses: I and N unit vectors and k >= 0 (GLSL: "the input parameters for the incident vector I and the surface normal N '
+                 'must already be normalized")',
+                 'normalize / proj / perp / triangleNormal / closestPointOnLine: non-degenerate arguments (v != 0, Normal != 0, non-collinear triangle, a != b)']
 P.not_covered = ['float cancellation in cross, rounding of every formula (R is exact-real)',
                  'overflow/underflow of squared norms (excluded by the property domain)',
                  'lxNorm (pow with a run-time exponent: uninterpreted)',
                  'the angle lies in [0, pi]: only cos(result) == dot, sin(result) >= 0 and result >= 0 are provable with an uninterpreted acos',
-                 'aligned/SIMD specialisations (func_geometric_simd.inl; not compiled in the default configuration)']
+                 'aligned/SIMD specialisations (func_geometric_simd.inl; not compiled in the default configuration)',
+                 'refract, k >= 0 branch bit-exactly (only the real-valued formula, kind R)']
 for k, v in sorted(LEFT_OUT.items()):
     P.not_covered.append('%s: %s' % (k, v))
